@@ -70,10 +70,12 @@ func (r *ValueRange) Spec_Diff() float64 {
 }
 
 func (r *ValueRange) Spec_ScaleEqually(scale float64) *ValueRange {
+	// C18: the range scaled about its centre; a negative factor covers the same interval as its absolute value
 	dif := r.Spec_Diff() / 2
+	factor := math.Abs(scale)
 	return &ValueRange{
-		Min: r.Min + dif - dif*scale,
-		Max: r.Max - dif + dif*scale,
+		Min: r.Min + dif - dif*factor,
+		Max: r.Max - dif + dif*factor,
 	}
 }
 
